@@ -5,3 +5,5 @@ package compose
 import "context"
 
 func verifTraceSubmit(context.Context, int, []*task) {}
+
+func verifTraceRun(context.Context) {}
